@@ -181,7 +181,7 @@ impl OutputFormat for TundraDraw {
             o += 1;
             if cmd == TUNDRA_POSITION {
                 pos.y = to_u32(&data[o..]);
-                if pos.y >= (u16::MAX) as i32 {
+                if pos.y < 0 || pos.y >= (u16::MAX) as i32 {
                     return Err(io::Error::new(
                         io::ErrorKind::InvalidData,
                         format!(
@@ -194,7 +194,7 @@ impl OutputFormat for TundraDraw {
                 }
                 o += 4;
                 pos.x = to_u32(&data[o..]);
-                if pos.x >= result.get_width() {
+                if pos.x < 0 || pos.x >= result.get_width() {
                     return Err(anyhow::anyhow!(
                         "Invalid Tundra Draw file.\nJump x position {} out of bounds (width is {})",
                         pos.x,
